@@ -106,6 +106,55 @@ def native_apply_outside_lock(ctx, op):
     return False, spath, 'held natively (the concurrent writer blocked until B finished)'
 
 
+def check_stall_outside_lock(ctx):
+    """a writer that waits for background work (write stall / halt loops) must not hold the journal lock: flush workers need that lock to make the
+    progress the writer is waiting for (necessary condition of 'stalls always let writers proceed eventually'; liveness itself is not decided)"""
+    for op in ('insert', 'remove', 'remove_weak', 'batch'):
+        ob = ctx.ob(f'stall/outside-lock-{op}', f'{op}: memtable-size maintenance and the write-stall loops run after the journal lock has been released', [C.WRITERS[op]])
+        setup = C.batch_setup(2, value_types=['Value']) if op == 'batch' else None
+        ex, paths = ctx.run(C.WRITERS[op], setup=setup, cache_key=f'stall.{op}', loop_bound=3,
+                            no_inline=C.NO_BACKPRESSURE + [r'keyspace::<impl>::maintenance$', r'Keyspace::maintenance$', r'check_memtable_rotate$'])
+        bad = []
+        for p in paths:
+            if p.status != 'returned':
+                continue
+            st_calls = [e for e in p.events if e.kind == 'CALL' and e.args.get('callee', '').endswith(('local_backpressure', 'check_write_halt', 'perform_write_stall', '::maintenance'))
+                        and 'JournalManager' not in e.args.get('callee', '') and 'MetaKeyspace' not in e.args.get('callee', '')]
+            if not st_calls:
+                continue
+            ob.reach += 1
+            lk = [e for e in p.events if C.is_journal_lock(e)]
+            ul = [e for e in p.events if C.is_journal_unlock(e)]
+            for sc in st_calls:
+                held = [l for l in lk if l.idx < sc.idx and not any(l.idx < u.idx < sc.idx for u in ul)]
+                if held:
+                    bad.append((p, f'{sc.args["callee"].split("::")[-1]} runs while the journal lock is held: a writer stalled there blocks the flush worker (which needs the lock) and with it every other writer')); break
+        if ob.reach == 0:
+            ob.status = 'undecided'; ob.detail = 'vacuous'
+        elif not bad:
+            ob.status = 'discharged'; ob.sample = {'paths': ob.reach}
+        else:
+            ctx.candidate(ob, f'{op}/stalls-under-journal-lock', f'{op}: {bad[0][1]}', confirm=lambda op=op: native_stall(ctx, op))
+
+
+def native_stall(ctx, op):
+    """4 sealed memtables are queued; a writer of kind `op` returns into the stall loop; the flush work runs on another thread: everything must finish"""
+    cmd = {'insert': 'insert a 6b39 39', 'remove': 'remove a 6b39', 'remove_weak': 'remove_weak a 6b39', 'batch': 'batch1 a 6b39 39'}[op]
+    L = ['dir $DIR/db', 'open workers=0', 'ks a']
+    for i in range(4):
+        L += [f'insert a 6b3{i} 3{i}', 'rotate a']
+    L += [f'spawn_free T {cmd}', 'join_timeout T 700', 'spawn_free D wdrain', 'join_timeout D 8000', 'join_timeout T 8000', 'get a 6b30']
+    spath, out = ctx.run_scenario('\n'.join(L) + '\n', tag='stall-' + op)
+    rs = [(c, r) for _i, c, r in out]
+    if any(c == 'CRASH' for c, _r in rs):
+        return False, spath, 'replay ended abnormally: ' + rs[-1][1][-200:]
+    jt = [r for c, r in rs if c == 'join_timeout']
+    if len(jt) == 3 and (jt[1] == 'pending' or jt[2] == 'pending'):
+        return True, spath, (f'with 4 sealed memtables queued, `{cmd}` went into the write stall; the flush work started on another thread did not finish within 8 s '
+                             f'(flush thread: {jt[1]}, writer: {jt[2]}): the stalled writer holds the journal lock the flush needs')
+    return False, spath, 'held natively'
+
+
 def check_rotation(ctx):
     pat = r'^keyspace::<impl>::inner_rotate_memtable$'
     ob = ctx.ob('rotation/id-recheck', 'inner_rotate_memtable rotates only if the active memtable id still matches, under the journal lock handed in, and enqueues one flush task per rotation', [pat])
@@ -329,6 +378,7 @@ def run(ctx):
         check_critical_section(ctx, op)
     check_rotation(ctx)
     check_ingestion(ctx)
+    check_stall_outside_lock(ctx)
     check_schedule_model(ctx)
     for o in ctx.obligations:
         ctx.samples.append(o.as_dict())
